@@ -34,9 +34,10 @@ CHECKS = {
  "C13": dict(
     technique="Lean 4 proof (16-clause inductive invariant over all reachable states of the queue-operation LTS M-POOL; deadlock-freedom; termination measure) + trace-acceptance correspondence of the real LazyPool under a deterministic scheduler",
     text="C13_exactly_once, C13_fault_no_silent_end, C13_deadlock_free, C13_terminates, C13_early_exit_drains, C13_inflight, C13_no_duplicates for every T>=1, "
+         "C13_reuse_is_fresh_pass / _reuse_exactly_once / _reuse_old_workers_drain (a re-used pool object is a list of independent passes: M-POOL Multi), "
          "prefill P>=T, finite or infinite input, every failing set and every interleaving; C13_original_deadlocks is the kernel-checked stuck state of the pinned "
          "code (fixed in /repo). The real pool runs under a scheduler that owns every queue operation (deadlock decided exactly); each trace must be accepted by the "
-         "compiled model with the measured P and end in a terminal model state. Thorough adds exhaustive schedule enumeration for tiny (T,n) as model validation.",
+         "compiled model with the measured P and end in a terminal model state; re-use is exercised both after draining and overlapped (second pass started while the abandoned pass's workers are still scheduled). Thorough adds exhaustive schedule enumeration for tiny (T,n) as model validation.",
     note="CPython queue.Queue (FIFO, blocking get) and threading are the modelled boundary; abandoning is allowed at any point between two results (a superset of the yield points).",
     ref="DESIGN.md §5 C13, Appendix A.1"),
  "C02": dict(
